@@ -12,8 +12,11 @@
 import DiskfsModel.Proofs.FatChain
 import DiskfsModel.Proofs.FatTable
 import DiskfsModel.Model.Fat.Fs
-import DiskfsModel.Proofs.FatGeom
+import DiskfsModel.Proofs.FatGeomGen
 import DiskfsModel.Proofs.FatFlatFs
+import DiskfsModel.Generated.Fat
+import DiskfsModel.Proofs.FatBoot
+import DiskfsModel.Spec.FatBoot
 namespace Diskfs.Fat.C08
 
 /-- a volume geometry the theorems apply to: allocation limit inside both the FAT and the data
@@ -168,6 +171,47 @@ theorem fat_copies_equal (d : Dev) (k : Kind) (fatID size : Nat) (m : CMap) (p1 
 
 /-! ### geometry computed at mkfs time (mirror of the three `Create`s over the regenerated tables) -/
 
+/-- **the geometry theorems are parametric in the cluster-size tables**: for EVERY table that
+    satisfies the decidable predicate `ClusterTableWF` (rows in increasing order of size, cluster
+    sizes non-decreasing, each a power of two between 1 and 128 sectors; FAT32: 512…32768 bytes and
+    no row whose sizes would wrap the 16-bit sectors-per-FAT field) the mirrored mkfs arithmetic
+    yields a well-formed geometry for every size it accepts.  Nothing in the proofs mentions a
+    threshold of today's tables. -/
+theorem create_geom12_any_table (tbl : List (Nat × Nat)) (hT : ClusterTableWF spcAllowed tbl = true)
+    (size : Nat) (g : Geom) (h : mkGeom12 tbl size = some g) :
+    g.WF size ∧ g.kind = .f12 ∧ g.clusters < 4085 := mkGeom12_wf_tbl tbl hT size g h
+
+theorem create_geom16_any_table (tbl : List (Nat × Nat)) (hT : ClusterTableWF spcAllowed tbl = true)
+    (size : Nat) (g : Geom) (h : mkGeom16 tbl size = some g) :
+    g.WF size ∧ g.kind = .f16 ∧ 4085 ≤ g.clusters ∧ g.clusters < 65525 := mkGeom16_wf_tbl tbl hT size g h
+
+theorem create_geom32_any_table (tbl : List (Nat × Nat)) (hT : ClusterTableWF32 tbl = true)
+    (size bs : Nat) (g : Geom) (hmax : size ≤ 274940771839 ∨ bs = 4096)
+    (h : mkGeom32Fixed tbl size bs = some g) : g.WF size ∧ g.kind = .f32 :=
+  mkGeom32Fixed_wf_tbl tbl hT size bs g hmax h
+
+/-- the tables regenerated from /repo on this run satisfy the predicate (`decide`, re-run every
+    time): a harmless edit of a threshold re-proves everything below by itself -/
+theorem facts_tables_wf :
+    ClusterTableWF spcAllowed Generated.Fat.fat12_spc_table = true ∧
+    ClusterTableWF spcAllowed Generated.Fat.fat16_spc_table = true ∧
+    ClusterTableWF32 Generated.Fat.fat32_clusterBytes_table = true :=
+  ⟨fat12_table_wf, fat16_table_wf, fat32_table_wf⟩
+
+/-- … while harmful edits are refused by the predicate: a cluster size that is not a power of two,
+    one that is not a multiple of the sector size, thresholds out of order, cluster sizes that
+    shrink as the volume grows, a FAT32 row that keeps 512-byte clusters up to 64 GiB (the 16-bit
+    sectors-per-FAT would wrap) — and a moved threshold is accepted -/
+theorem table_predicate_discriminates :
+    ClusterTableWF spcAllowed [(2097153, 1), (4194305, 3), (0, 64)] = false ∧
+    ClusterTableWF32 [(272629761, 768), (0, 32768)] = false ∧
+    ClusterTableWF spcAllowed [(4194305, 1), (2097153, 2), (0, 64)] = false ∧
+    ClusterTableWF spcAllowed [(2097153, 4), (4194305, 2), (0, 64)] = false ∧
+    ClusterTableWF32 [(68719476737, 512), (0, 32768)] = false ∧
+    ClusterTableWF32 [(134217729, 512), (8589934593, 4096), (17179869185, 8192), (34359738369, 16384), (0, 32768)] = true :=
+  ⟨table_bad_value, table_bad_multiple, table_not_monotone, table_values_decrease, table_fat32_wraps,
+    table_harmless_edit.2⟩
+
 /-- **create_geom12 / 16**: for EVERY size FAT12 / FAT16 `Create` accepts, the boot-sector geometry
     matches the byte range given (sector count, nothing beyond the range), reserved area + both
     FATs + root region lie in front of a non-empty data area, the FAT has an entry for every
@@ -185,20 +229,18 @@ theorem create_geom32_fixed (size bs : Nat) (g : Geom) (hmax : size ≤ 27494077
     (h : mkGeom32Fixed Generated.Fat.fat32_clusterBytes_table size bs = some g) :
     g.WF size ∧ g.kind = .f32 := mkGeom32Fixed_wf size bs g hmax h
 
-/-- FAT32 as found: everything but the two reserved FAT entries -/
-theorem create_geom32_asfound_partial (size bs : Nat) (g : Geom) (hmax : size ≤ 274940837375 ∨ bs = 4096)
-    (h : mkGeom32 Generated.Fat.fat32_clusterBytes_table size bs = some g) :
-    g.totalSectors * g.bps ≤ size ∧ size < g.totalSectors * g.bps + g.bps ∧
-    g.reserved + 2 * g.fatSectors + g.rootSectors < g.totalSectors ∧
-    0 < g.clusters ∧ g.clusters ≤ g.fatEntries ∧
-    g.dataStart + g.clusters * g.spc * g.bps ≤ size ∧ g.kind = .f32 := mkGeom32_wf_weak size bs g hmax h
+/-- as found (before fix 911b8cc) the FAT32 FAT was short of the two reserved entries on a whole
+    family of ordinary sizes (finding fat32-fatsize-omits-reserved-entries, now fixed): wherever
+    the table assigns 512-byte clusters, 130k+32 sectors give 128k clusters and 128k entries -/
+theorem cex_fat32_fat_short (tbl : List (Nat × Nat)) (k r : Nat) (hk1 : 1 ≤ k) (hk2 : k ≤ 4095) (hr : r < 512)
+    (hl : sizeTableLookup tbl ((32 + 130 * k) * 512 + r) = 512) :
+    (mkGeom32 tbl ((32 + 130 * k) * 512 + r) 512).map
+      (fun g => (g.fatEntries, g.clusters)) = some (128 * k, 128 * k) := mkGeom32_fat_short_family' tbl k r hk1 hk2 hr hl
 
-/-- as found the FAT32 FAT is short of the two reserved entries on a whole family of ordinary
-    sizes (finding fat32-fatsize-omits-reserved-entries): 130k+32 sectors give 128k clusters and
-    128k entries, for every k -/
-theorem cex_fat32_fat_short (k r : Nat) (hk1 : 1 ≤ k) (hk2 : k ≤ 4095) (hr : r < 512) :
-    (mkGeom32 Generated.Fat.fat32_clusterBytes_table ((32 + 130 * k) * 512 + r) 512).map
-      (fun g => (g.fatEntries, g.clusters)) = some (128 * k, 128 * k) := mkGeom32_fat_short_family' k r hk1 hk2 hr
+/-- … e.g. today's table at 161 sectors: 1 FAT sector = 128 entries for 127 clusters (129 needed) -/
+theorem cex_fat32_fat_short_161 :
+    (mkGeom32 Generated.Fat.fat32_clusterBytes_table 82432 512).map
+      (fun g => (g.fatSectors, g.fatEntries, g.clusters)) = some (1, 128, 127) := cex_mkGeom32_fat_short
 
 /-- above 256 GiB the uint16 sectors-per-FAT wraps (finding fat32-geometry-narrow-integers) -/
 theorem cex_fat32_300GiB :
@@ -209,6 +251,34 @@ theorem cex_fat32_300GiB :
 theorem cex_fat12_fat_short_old :
     (mkGeom12Old Generated.Fat.fat12_spc_table 33554944).map
       (fun g => (g.fatEntries, g.clusters + 2)) = some (2048, 2049) := cex_fatsize_old_values
+
+/-! ### boot sector, backup boot sector, FSInfo: byte encoders (mirrors of the `toBytes` writers) -/
+
+/-- the 512-byte FAT12/16 boot sector `msDosBootSector.toBytes` builds (jump, OEM name, DOS 2.0 /
+    3.31 BPB, DOS 4.0 EBPB with label and type, boot code, 55 AA) decodes, field by field at the
+    fixed offsets, to exactly the record it was built from -/
+theorem boot16_roundtrip (s : Boot16) (h : s.WF) : Boot16.parse s.bytes = some s ∧ s.bytes.length = 512 :=
+  ⟨Fat.boot16_roundtrip s h, boot16_length s h⟩
+
+/-- the FAT32 boot sector (DOS 7.1 EBPB: 32-bit FAT size, root cluster, FSInfo and backup sector
+    numbers, big-endian serial as the Go code writes it), for every sector size ≥ 512; the backup
+    boot sector is this same byte string written at sector `backup` -/
+theorem boot32_roundtrip (s : Boot32) (sectorSize : Nat) (h : s.WF) (hs : 512 ≤ sectorSize) :
+    Boot32.parse (s.bytes sectorSize) = some s ∧ (s.bytes sectorSize).length = sectorSize :=
+  ⟨Fat.boot32_roundtrip s sectorSize h, boot32_length s sectorSize h hs⟩
+
+/-- the FSInfo sector: three signatures, free-cluster count and next-free hint -/
+theorem fsinfo_roundtrip (s : FsInfo) (sectorSize : Nat) (h1 : s.free < 4294967296) (h2 : s.last < 4294967296) :
+    FsInfo.parse (s.bytes sectorSize) = some s := Fat.fsinfo_roundtrip s sectorSize h1 h2
+
+/-- the record fat32.Create builds from a geometry (sectors per FAT, root cluster 2, FSInfo at
+    sector 1, backup boot sector at 6, …) is well formed, so it is read back exactly from the boot
+    sector and from its backup copy -/
+theorem create_boot32_roundtrip (g : Geom) (serial : Nat) (label : Bytes) (hs : serial < 4294967296)
+    (hl : label.length = 11) (hk : g.kind = .f32) (hbps : g.bps < 65536) (hspc : g.spc < 256)
+    (hres : g.reserved < 65536) (hts : g.totalSectors < 4294967296) (hfs : g.fatSectors < 4294967296) :
+    Boot32.parse ((boot32OfGeom g serial label).bytes g.bps) = some (boot32OfGeom g serial label) :=
+  Fat.boot32_roundtrip _ _ (create_boot32_wf g serial label hs hl hk hbps hspc hres hts hfs)
 
 /-! ### the one-directory filesystem keeps its table sound while it moves data (layer E) -/
 
